@@ -556,6 +556,50 @@ func runCheck(id string, opt runOpts, writeLedger bool) int {
 		}
 	}
 	jobs, missing := jobsFor(L, id, opt)
+	// a derived property also owns the obligations of its base properties on the named instantiations
+	counts := func(props []string, unit string) bool { return hasProp(props, id) }
+	if d, ok := L.contracts.derived[id]; ok {
+		onInst := func(unit string) bool {
+			for _, t := range d.insts {
+				if strings.Contains(unit, "["+t+"]") {
+					return true
+				}
+			}
+			return false
+		}
+		seen := map[string]bool{}
+		for _, j := range jobs {
+			seen[j.name] = true
+		}
+		for _, b := range d.bases {
+			bj, bm := jobsFor(L, b, opt)
+			for _, j := range bj {
+				if !seen[j.name] && onInst(j.name) {
+					seen[j.name] = true
+					jobs = append(jobs, j)
+				}
+			}
+			for _, ur := range bm {
+				if onInst(ur.Name) {
+					missing = append(missing, ur)
+				}
+			}
+		}
+		counts = func(props []string, unit string) bool {
+			if hasProp(props, id) {
+				return true
+			}
+			if !onInst(unit) {
+				return false
+			}
+			for _, b := range d.bases {
+				if hasProp(props, b) {
+					return true
+				}
+			}
+			return false
+		}
+	}
 	results := append(runJobs(jobs, opt.jobs), missing...)
 	// engine errors are not about the tree
 	for _, ur := range results {
@@ -567,7 +611,7 @@ func runCheck(id string, opt runOpts, writeLedger bool) int {
 	var order []string
 	for _, ur := range results {
 		for i, q := range ur.Queries {
-			if !hasProp(ur.Props[q.Name], id) {
+			if !counts(ur.Props[q.Name], ur.Name) {
 				continue
 			}
 			var r QResult
